@@ -23,7 +23,7 @@ from .simfs import REPO, HarnessError, SimCrash, SimFS
 REPO_PREFIXES = (REPO + "/compiler/", REPO + "/lib/py/")
 SYSTEM_OPS = ("parse", "parse_string", "lint", "render", "cli", "introspect")
 MAX_BUDGET = 120_000_000
-WALL_LIMIT_S = 60.0
+WALL_LIMIT_S = 20.0  # ordinary operations take 5-500 ms (deep-nesting templates a few seconds)
 
 _ADDR = re.compile(r"0x[0-9a-fA-F]{6,}")
 
@@ -396,6 +396,10 @@ class CompilerProcess:
             elif how == "touch_past":
                 node.mtime = 1.0
             return {"i": i, "op": kind, "outcome": "ok", "file": path.rsplit("/", 1)[-1], "how": how}
+        if kind == "drop":
+            # the embedding forgets a finished compilation: its tree becomes garbage
+            self.sessions.pop(op["sid"], None)
+            return {"i": i, "op": kind, "outcome": "ok"}
         if kind == "restart":
             self.boot()
             self.restarts += 1
@@ -552,6 +556,10 @@ class CompilerProcess:
                 rec["key"] = op["key"]
             self.history.append(rec)
             oc = rec["outcome"]
+            if oc == "hang:wall":
+                # a stall inside C code costs real time: judge this one, do not sit through more
+                rec["run_aborted"] = True
+                break
             if oc.startswith("crash") or oc.startswith("hang") or oc.startswith("exit") or oc.startswith("sysexit"):
                 # the process is gone: only durable state survives
                 self.boot()
